@@ -2586,3 +2586,98 @@ Proof.
   - rewrite IH. apply N.eqb_eq in E. rewrite E. cbn. reflexivity.
   - rewrite IH. reflexivity.
 Qed.
+
+(* ================================================================ the export map tracks the neighbour's view (best-only) *)
+Lemma mem_add_n : forall x y l, mem x (add_n y l) = (x =? y) || mem x l.
+Proof.
+  intros x y l. unfold add_n. destruct (mem y l) eqn:E.
+  - destruct (x =? y) eqn:Exy; [apply N.eqb_eq in Exy; subst; rewrite E; reflexivity | reflexivity].
+  - induction l as [|z l IH]; cbn [app mem]; [rewrite orb_false_r; reflexivity|].
+    cbn [mem] in E. apply orb_false_iff in E. destruct E as [_ E]. rewrite (IH E).
+    destruct (x =? z), (x =? y); reflexivity.
+Qed.
+
+Lemma mem_remove_n : forall x y l, mem x (remove_n y l) = negb (x =? y) && mem x l.
+Proof.
+  intros x y. induction l as [|z l IH]; [cbn; rewrite andb_false_r; reflexivity|].
+  cbn [remove_n]. destruct (y =? z) eqn:Eyz.
+  - rewrite IH. cbn [mem]. apply N.eqb_eq in Eyz. subst z. destruct (x =? y); reflexivity.
+  - cbn [mem]. rewrite IH. destruct (x =? z) eqn:Exz; [|reflexivity].
+    apply N.eqb_eq in Exz. subst z. rewrite N.eqb_sym, Eyz. reflexivity.
+Qed.
+
+Lemma was_sent_mark_sent : forall e d d', not_addpath e ->
+  em_was_sent (em_mark_sent e d 0) d' = (d' =? d) || em_was_sent e d'.
+Proof.
+  intros e d d' H. destruct e as [|s|m]; [|apply mem_add_n|contradiction].
+  cbn [em_mark_sent em_was_sent mem]. rewrite orb_false_r. reflexivity.
+Qed.
+
+Lemma was_sent_mark_withdrawn : forall e d d', not_addpath e ->
+  em_was_sent (em_mark_withdrawn e d 0) d' = negb (d' =? d) && em_was_sent e d'.
+Proof.
+  intros e d d' H. destruct e as [|s|m]; [|apply mem_remove_n|contradiction].
+  cbn. rewrite andb_false_r. reflexivity.
+Qed.
+
+Lemma not_addpath_step : forall e d, not_addpath e -> not_addpath (em_mark_sent e d 0) /\ not_addpath (em_mark_withdrawn e d 0).
+Proof.
+  intros e d H. destruct e as [|s|m]; [cbn; auto | | contradiction].
+  cbn [em_mark_sent em_mark_withdrawn not_addpath]. auto.
+Qed.
+
+(* One call on a best-only session: afterwards ExportMap::was_sent says, for every
+   destination, whether the neighbour holds a route for it, provided it said so before. *)
+Theorem C09_export_map_tracks_view : forall fixed x pol raddr cid c e r,
+  not_addpath e ->
+  process_change_v fixed x pol 1 raddr cid c e = Ok r ->
+  not_addpath (snd r)
+  /\ forall d v0, has_entry v0 = em_was_sent e d ->
+       has_entry (view_after (fst r) d 0 v0) = em_was_sent (snd r) d.
+Proof.
+  intros fixed x pol raddr cid c e r Hna H. unfold process_change_v in H. cbn [N.eqb Pos.eqb] in H.
+  assert (Hnone : forall r0, Ok (@nil sinkop, e) = Ok r0 ->
+            not_addpath (snd r0) /\ forall d v0, has_entry v0 = em_was_sent e d ->
+              has_entry (view_after (fst r0) d 0 v0) = em_was_sent (snd r0) d).
+  { intros r0 E. inversion E; subst. cbn [fst snd view_after]. auto. }
+  assert (Hwd : forall r0,
+            (if em_was_sent e (c_dest c)
+             then Ok ([Unreach (c_dest c) 0], em_mark_withdrawn e (c_dest c) 0) else Ok ([], e)) = Ok r0 ->
+            not_addpath (snd r0) /\ forall d v0, has_entry v0 = em_was_sent e d ->
+              has_entry (view_after (fst r0) d 0 v0) = em_was_sent (snd r0) d).
+  { intros r0 E. destruct (em_was_sent e (c_dest c)) eqn:Ews; [|apply Hnone; exact E].
+    inversion E; subst. cbn [fst snd]. split; [apply not_addpath_step; exact Hna|].
+    intros d v0 Hv. cbn [view_after]. rewrite N.eqb_refl, andb_true_r.
+    rewrite (was_sent_mark_withdrawn e (c_dest c) d Hna). rewrite (N.eqb_sym (c_dest c) d).
+    destruct (d =? c_dest c); cbn [negb andb has_entry]; [reflexivity | exact Hv]. }
+  destruct (negb (c_best_changed c) && _); [apply Hnone; exact H|].
+  destruct (c_paths c) as [|best rest]; [apply Hwd; exact H|].
+  destruct (visible x raddr cid best); [|apply Hwd; exact H].
+  destruct (policy_stage x pol cid (c_family c) best) as [[a nh]|]; [|apply Hwd; exact H].
+  destruct (export_attrs x (llgr_stage best a)) as [a'|]; cbn [rbind] in H; [|discriminate].
+  inversion H; subst. cbn [fst snd]. split; [apply not_addpath_step; exact Hna|].
+  intros d v0 Hv. cbn [view_after]. rewrite N.eqb_refl, andb_true_r.
+  rewrite (was_sent_mark_sent e (c_dest c) d Hna). rewrite (N.eqb_sym (c_dest c) d).
+  destruct (d =? c_dest c); cbn [orb has_entry]; [reflexivity | exact Hv].
+Qed.
+
+(* ... hence along any history of a best-only session that starts with nothing sent *)
+Theorem C09_export_map_tracks_view_history : forall x pol raddr cid cs r d,
+  run_changes x pol 1 raddr cid cs ENone = Ok r ->
+  has_entry (view_after (fst r) d 0 None) = em_was_sent (snd r) d.
+Proof.
+  intros x pol raddr cid cs.
+  assert (G : forall cs e r, not_addpath e -> run_changes x pol 1 raddr cid cs e = Ok r ->
+            not_addpath (snd r) /\ forall d v0, has_entry v0 = em_was_sent e d ->
+              has_entry (view_after (fst r) d 0 v0) = em_was_sent (snd r) d).
+  { clear cs. induction cs as [|c t IH]; intros e r Hna H.
+    - cbn in H. inversion H; subst. cbn. auto.
+    - cbn [run_changes] in H.
+      destruct (process_change x pol 1 raddr cid c e) as [r1|] eqn:E1; [|discriminate]. cbn [rbind] in H.
+      destruct (run_changes x pol 1 raddr cid t (snd r1)) as [r2|] eqn:E2; [|discriminate]. cbn [rbind] in H.
+      inversion H; subst r. cbn [fst snd].
+      destruct (C09_export_map_tracks_view true x pol raddr cid c e r1 Hna E1) as [Hn1 Hv1].
+      destruct (IH (snd r1) r2 Hn1 E2) as [Hn2 Hv2]. split; [exact Hn2|].
+      intros d v0 Hv. rewrite view_after_app. apply Hv2. apply Hv1. exact Hv. }
+  intros r d H. destruct (G cs ENone r I H) as [_ Hv]. apply Hv. reflexivity.
+Qed.
